@@ -1,2 +1,391 @@
-// Package c02 binds the TLA+ specification of property C02 to the Go code.
+// Package c02 binds spec/iptext (IPText.tla) and spec/names (Names.tla) to the
+// allocation-free validators of netutil (property C02): IsValidIPString,
+// IsValidIPPortString, IsValidHostname, IsValidHostnameLabel.
 package c02
+
+import (
+	"encoding/json"
+	"fmt"
+	"math/rand/v2"
+	"net/netip"
+	"strconv"
+	"strings"
+	"sync"
+	"sync/atomic"
+
+	"github.com/AdguardTeam/golibs/netutil"
+
+	"verifharness/internal/c03"
+	"verifharness/internal/vh"
+)
+
+func init() {
+	vh.Register("c02", "replay-chars", replayChars)
+	vh.Register("c02", "replay-toks", replayToks)
+	vh.Register("c02", "replay-names", replayNames)
+	vh.Register("c02", "record", record)
+	vh.Register("c02", "one", one)
+}
+
+func q(s string) string {
+	x := fmt.Sprintf("%q", s)
+	if len(x) > 700 {
+		x = x[:340] + "…" + x[len(x)-340:] + fmt.Sprintf("(len %d)", len(s))
+	}
+	return x
+}
+
+// The four equivalences of C02.  Each returns (twin result, reference result,
+// panic text).
+type pair struct {
+	name string
+	ref  string
+	f    func(s string) (got, want bool)
+}
+
+var pairs = []pair{
+	{"IsValidIPString", "netip.ParseAddr", func(s string) (bool, bool) {
+		_, err := netip.ParseAddr(s)
+		return netutil.IsValidIPString(s), err == nil
+	}},
+	{"IsValidIPPortString", "netip.ParseAddrPort", func(s string) (bool, bool) {
+		_, err := netip.ParseAddrPort(s)
+		return netutil.IsValidIPPortString(s), err == nil
+	}},
+	{"IsValidHostname", "ValidateHostname", func(s string) (bool, bool) {
+		return netutil.IsValidHostname(s), netutil.ValidateHostname(s) == nil
+	}},
+	{"IsValidHostnameLabel", "ValidateHostnameLabel", func(s string) (bool, bool) {
+		return netutil.IsValidHostnameLabel(s), netutil.ValidateHostnameLabel(s) == nil
+	}},
+}
+
+const (
+	pIP = iota
+	pIPPort
+	pHost
+	pLabel
+)
+
+// try evaluates one equivalence on s.
+func try(i int, s string) (got, want bool, what string) {
+	pv, panicked := vh.Try(func() { got, want = pairs[i].f(s) })
+	switch {
+	case panicked:
+		return got, want, fmt.Sprintf("panic: %v", pv)
+	case got != want:
+		return got, want, fmt.Sprintf("%s returned %v but %s says %v", pairs[i].name, got, pairs[i].ref, want)
+	}
+	return got, want, ""
+}
+
+// checker accumulates the outcome of one replay / record run.
+type checker struct {
+	stage string // which binding / family found it, e.g. "G tokens"
+	res   *vh.Result
+	evals atomic.Int64
+	mu    sync.Mutex
+	nBug  int
+	bugs  []string
+}
+
+// check evaluates equivalence i on s.  canon is the seed-independent
+// representative of the same abstract input (the mismatch is keyed by it when
+// it fails as well); spec is the TLA+ verdict or nil.
+func (c *checker) check(i int, s, canon string, spec *bool, detail any) (want bool) {
+	c.evals.Add(1)
+	got, want, what := try(i, s)
+	if what != "" {
+		key := s
+		if canon != s {
+			if _, _, w2 := try(i, canon); w2 != "" {
+				key = canon
+			}
+		}
+		c.res.Mismatch(fmt.Sprintf("%s(%s)", pairs[i].name, q(key)), what+" ["+c.stage+"]",
+			map[string]any{"input": s, "input_go": strconv.Quote(s), "got": got, "reference": want, "vector": detail})
+	}
+	if spec != nil && *spec != want && !strings.HasPrefix(what, "panic") {
+		c.mu.Lock()
+		c.nBug++
+		if len(c.bugs) < 8 {
+			c.bugs = append(c.bugs, fmt.Sprintf("%s(%s): TLA+ grammar %v, reference %v", pairs[i].ref, q(s), *spec, want))
+		}
+		c.mu.Unlock()
+	}
+	return want
+}
+
+func (c *checker) err() error {
+	if c.nBug == 0 {
+		return nil
+	}
+	return fmt.Errorf("%d disagreement(s) between the TLA+ grammar and the reference parser (spec/harness bug, not a finding): %s",
+		c.nBug, strings.Join(c.bugs, " | "))
+}
+
+type perWorker struct {
+	rng *rand.Rand
+	dd  *lockedDedup
+}
+
+// lockedDedup is one distinct-counter shared by all workers.
+type lockedDedup struct {
+	mu sync.Mutex
+	d  *vh.Dedup
+}
+
+func (l *lockedDedup) Add(b []byte) {
+	l.mu.Lock()
+	l.d.Add(b)
+	l.mu.Unlock()
+}
+
+func workers(stream uint64) []perWorker {
+	ws := make([]perWorker, c03.Workers())
+	dd := &lockedDedup{d: vh.NewDedup()}
+	for i := range ws {
+		ws[i] = perWorker{rng: vh.Rand(stream + uint64(i)), dd: dd}
+	}
+	return ws
+}
+
+func distinct(ws []perWorker) (n int) { return ws[0].dd.d.N() }
+
+// ------------------------------------------------------------- characters
+
+type charVec struct {
+	S []string `json:"s"`
+	A bool     `json:"a"`
+	P bool     `json:"p"`
+}
+
+func replayChars(args []string) error {
+	if len(args) != 2 {
+		return fmt.Errorf("usage: replay-chars <vectors> <result>")
+	}
+	res, err := vh.NewResult(args[1])
+	if err != nil {
+		return err
+	}
+	c := &checker{res: res, stage: "G characters"}
+	ws := workers(200)
+	var nvec, nconc, nvalid atomic.Int64
+	err = c03.ParallelLines(args[0], len(ws), func(w int, raw []byte) error {
+		var v charVec
+		if err := json.Unmarshal(raw, &v); err != nil {
+			return err
+		}
+		n := nvec.Add(1)
+		if len(v.S) > 0 {
+			ws[w].dd.Add(raw)
+		}
+		canon := ConcretiseChars(v.S, 0, nil)
+		if (v.A || v.P) && n%997 == 1 || n%200003 == 7 {
+			res.Sample(map[string]any{"abstract": strings.Join(v.S, ""), "spec": map[string]bool{"addr": v.A, "addrport": v.P}, "concrete": canon})
+		}
+		if v.A || v.P {
+			nvalid.Add(1)
+		}
+		var seen [3]string
+		for m := Mode(0); m < 3; m++ {
+			s := canon
+			if m > 0 {
+				s = ConcretiseChars(v.S, m, ws[w].rng)
+				if s == seen[0] || s == seen[1] {
+					continue
+				}
+			}
+			seen[m] = s
+			nconc.Add(1)
+			c.check(pIP, s, canon, &v.A, v)
+			c.check(pIPPort, s, canon, &v.P, v)
+		}
+		return nil
+	})
+	if err != nil {
+		return err
+	}
+	if e := c.err(); e != nil {
+		return e
+	}
+	return res.Close(map[string]any{"vectors": nvec.Load(), "concretisations": nconc.Load(), "evaluations": c.evals.Load(),
+		"distinct_nontrivial": distinct(ws), "accepted_by_grammar": nvalid.Load()})
+}
+
+// ----------------------------------------------------------------- tokens
+
+type tokVec struct {
+	T  []string `json:"t"`
+	A  bool     `json:"a"`
+	P  bool     `json:"p"`
+	PB bool     `json:"pb"`
+	PN bool     `json:"pn"`
+}
+
+func replayToks(args []string) error {
+	if len(args) != 2 {
+		return fmt.Errorf("usage: replay-toks <vectors> <result>")
+	}
+	res, err := vh.NewResult(args[1])
+	if err != nil {
+		return err
+	}
+	c := &checker{res: res, stage: "G tokens"}
+	ws := workers(230)
+	var nvec, nconc, nvalid atomic.Int64
+	err = c03.ParallelLines(args[0], len(ws), func(w int, raw []byte) error {
+		var v tokVec
+		if err := json.Unmarshal(raw, &v); err != nil {
+			return err
+		}
+		n := nvec.Add(1)
+		if len(v.T) > 0 {
+			ws[w].dd.Add(raw)
+		}
+		canon, err := ConcretiseToks(v.T, 0, nil)
+		if err != nil {
+			return err
+		}
+		if (v.A || v.P) && n%499 == 1 || n%20011 == 7 {
+			res.Sample(map[string]any{"abstract": strings.Join(v.T, " "), "concrete": canon,
+				"spec": map[string]bool{"addr": v.A, "addrport": v.P, "bracketed+port": v.PB}})
+		}
+		if v.A || v.P {
+			nvalid.Add(1)
+		}
+		seen := map[string]bool{}
+		rng := ws[w].rng
+		for m := Mode(0); m < 4; m++ {
+			s := canon
+			if m > 0 {
+				mm := m
+				if m == 3 {
+					mm = 1
+				}
+				if s, err = ConcretiseToks(v.T, mm, rng); err != nil {
+					return err
+				}
+			}
+			if seen[s] {
+				continue
+			}
+			seen[s] = true
+			nconc.Add(1)
+			c.check(pIP, s, canon, &v.A, v)
+			c.check(pIPPort, s, canon, &v.P, v)
+			// The same address behind a valid port, bracketed and bare.
+			port := "80"
+			if m > 0 {
+				port = ValidPort(rng)
+			}
+			c.check(pIPPort, "["+s+"]:"+port, "["+canon+"]:80", &v.PB, v)
+			c.check(pIPPort, s+":"+port, canon+":80", &v.PN, v)
+			// ... and behind an invalid one: never an address:port (reference only).
+			bad := InvalidPort(rng)
+			no := false
+			c.check(pIPPort, "["+s+"]:"+bad, "["+canon+"]:65536", &no, v)
+		}
+		return nil
+	})
+	if err != nil {
+		return err
+	}
+	if e := c.err(); e != nil {
+		return e
+	}
+	return res.Close(map[string]any{"vectors": nvec.Load(), "concretisations": nconc.Load(), "evaluations": c.evals.Load(),
+		"distinct_nontrivial": distinct(ws), "accepted_by_grammar": nvalid.Load()})
+}
+
+// ------------------------------------------------------------------ names
+
+// replayNames checks the two boolean twins on the vectors of NamesGen.tla.
+// The deciding oracle is the error-returning validator named in the property;
+// the TLA+ verdict is compared as well, but a disagreement there concerns
+// C03 (the validators themselves) and is only counted here.
+func replayNames(args []string) error {
+	if len(args) != 2 {
+		return fmt.Errorf("usage: replay-names <vectors> <result>")
+	}
+	res, err := vh.NewResult(args[1])
+	if err != nil {
+		return err
+	}
+	c := &checker{res: res, stage: "G names"}
+	ws := workers(260)
+	var nvec, nconc, nvalid, specDiff atomic.Int64
+	err = c03.ParallelLines(args[0], len(ws), func(w int, raw []byte) error {
+		var v c03.Vector
+		if err := json.Unmarshal(raw, &v); err != nil {
+			return err
+		}
+		runs, err := v.Runs()
+		if err != nil {
+			return err
+		}
+		n := nvec.Add(1)
+		if len(runs) > 0 {
+			ws[w].dd.Add(raw)
+		}
+		canon := c03.Concretise(runs, c03.Canonical, nil)
+		if n%50021 == 1 {
+			res.Sample(map[string]any{"abstract": v.R, "concrete": canon, "spec": map[string]bool{"hostname": v.Host, "label": v.Label}})
+		}
+		if v.Host || v.Label {
+			nvalid.Add(1)
+		}
+		seen := map[string]bool{}
+		rng := ws[w].rng
+		for m := 0; m < 4; m++ {
+			var s string
+			ascii := true
+			switch m {
+			case 0:
+				s = canon
+			case 1:
+				s = c03.Concretise(runs, c03.MixedRandom, rng)
+			case 2:
+				s = c03.Concretise(runs, c03.UpperRandom, rng)
+			default:
+				s = c03.ConcretiseBytes(runs, rng) // class X from non-ASCII / invalid UTF-8
+				ascii = false
+			}
+			if seen[s] {
+				continue
+			}
+			seen[s] = true
+			nconc.Add(1)
+			wantHost := c.check(pHost, s, canon, nil, v.R)
+			wantLabel := c.check(pLabel, s, canon, nil, v.R)
+			if ascii && !strings.Contains(s, "xn--") && (wantHost != v.Host || wantLabel != v.Label) {
+				specDiff.Add(1)
+			}
+		}
+		return nil
+	})
+	if err != nil {
+		return err
+	}
+	return res.Close(map[string]any{"vectors": nvec.Load(), "concretisations": nconc.Load(), "evaluations": c.evals.Load(),
+		"distinct_nontrivial": distinct(ws), "accepted_by_grammar": nvalid.Load(), "validate_vs_grammar_differences": specDiff.Load()})
+}
+
+// one re-executes a single input on all four equivalences (--replay).
+func one(args []string) error {
+	if len(args) != 1 {
+		return fmt.Errorf("usage: one <go-quoted-input>")
+	}
+	s, err := strconv.Unquote(args[0])
+	if err != nil {
+		return err
+	}
+	out := map[string]any{"input": s, "input_go": strconv.Quote(s), "abstract": strings.Join(AbstractIP(s), "")}
+	for i, p := range pairs {
+		got, want, what := try(i, s)
+		out[p.name] = map[string]any{"returned": got, p.ref: want, "disagreement": what}
+	}
+	b, _ := json.MarshalIndent(out, "", " ")
+	fmt.Println(string(b))
+	return nil
+}
